@@ -7,7 +7,7 @@
 // (and exercised for real in the native replay of every harness).
 #![allow(dead_code, static_mut_refs)]
 
-pub const MAXF: usize = 12;
+pub const MAXF: usize = 24;
 pub const VAL_BYTES: usize = 32;
 
 pub struct Rec {
